@@ -28,7 +28,7 @@ import (
 func init() {
 	common := "explicit-state breadth-first search over states of the real token loop: state = (token-loop locals read from the running implementation via the overlay hook, stack of open input elements (which fixes the tokenizer's raw-text mode)); " +
 		"transitions = feed one more token of a well-nested document over the grammar W (text with a unique marker; open / matching close of 18 element forms (incl. pattern-matched names with non-ASCII and quote characters): kept with attributes, kept bare, dropped for lack of attributes, disallowed, disallowed skip-content, pattern-allowed with and without AllowNoAttrs, RCDATA / raw-text, script, style; void and self-closing leaves; comment), " +
-		"nesting depth <=3 (thorough 4) and ANY document length (siblings collapse onto visited states); one search per policy (16 policies: a pattern that matches skip-set names, every void element allowed with attributes only, AllowUnsafe with and without script allowed, default and modified skip sets, element patterns with and without AllowNoAttrs, iframe allowed with attributes only, space insertion, comments, un-skipped script/style). Successor = fresh run of the real Sanitize on the state's shortest path plus the token. "
+		"nesting depth <=3 (thorough 4) and ANY document length (siblings collapse onto visited states); a complete skipped element must leave no trace (C08: if the loop state after it differs from the state before it, every continuation <X>text</X> and every leaf must behave as without it); one search per policy (17 policies: a pattern that matches skip-set names, every void element allowed with attributes only, AllowUnsafe with and without script allowed, default and modified skip sets, element patterns with and without AllowNoAttrs, iframe allowed with attributes only, space insertion, comments, un-skipped script/style). Successor = fresh run of the real Sanitize on the state's shortest path plus the token. "
 	register(&run.Check{
 		ID:    "C08",
 		Level: "model_checking",
@@ -43,7 +43,7 @@ func init() {
 		ID:    "C09",
 		Level: "model_checking",
 		Rule: common + "Oracle: the stack-balance monitor over the re-tokenised output never sees a stray or mismatched end tag, and in every state with an empty input stack (a complete well-nested document) no output element is left open. " +
-			"non-trivial = transitions that close an input element.",
+			"Two-call layer: after the same policy sanitised any fragment sequence of length <=3 (well nested or not), six well-nested documents still come out balanced. non-trivial = transitions that close an input element.",
 		Assumptions: []string{"void elements follow the HTML list; self-closing tokens are leaves", "if the overlay cannot locate the token loop the search falls back to plain enumeration of W-documents up to 6 tokens and reports exhaustive:false"},
 		QuickBudget: 50, ThoroughBudget: 800,
 		Run:    func(c *run.Ctx) { runE2(c, "C09") },
